@@ -128,7 +128,7 @@ def linear_of(v):
 
 
 def is_numeric(v):
-    return isinstance(v, Term) or (isinstance(v, Sym) and v.kind in ("num", "int")) or (isinstance(v, (int, float)) and not isinstance(v, bool))
+    return isinstance(v, Term) or (isinstance(v, Sym) and v.kind in ("num", "int", "float")) or (isinstance(v, (int, float)) and not isinstance(v, bool))
 
 
 class NoneT:
@@ -1171,6 +1171,15 @@ class Ev:
                 return self.bind(fn, owner, v)
             raise AnalysisError("enum attribute .%s" % attr)
         if isinstance(v, ModRef):
+            rm = self.repo._by_modname.get(v.name)
+            if rm is not None:
+                # a module of the repository reached through its name: its classes, functions and constants
+                if attr in rm.classes:
+                    return ClassRef(rm.classes[attr])
+                if attr in rm.functions and v.name.endswith(".validity"):
+                    return FuncV(rm.functions[attr], mod=rm)  # type predicates; other functions stay uninterpreted calls
+                if attr in rm.assigns:
+                    return self.ev(rm.assigns[attr], {"__mod__": rm}, rm)
             return ModRef(v.name + "." + attr)
         if isinstance(v, PropV) and attr in ("fget", "fset", "fdel"):
             fn_ = v.parts.get({"fget": "get", "fset": "set", "fdel": "del"}[attr])
